@@ -170,7 +170,15 @@ def probe_tables():
                 nobody.append(n)
     finally:
         serving.clear()
-    return {'valid': _ranges(valid), 'falsy': falsy, 'he_ok': _ranges(he_ok), 'he_exc': _ranges(he_exc),
+    # does AppResponse.close(), called from the `except` block of __init__ before `self.iter_response` exists,
+    # raise when the response is streamed?  (then an InternalRedirect out of a streaming page becomes a 500)
+    probe = base_plan([base_page(handler=['ir1', 'bytes', None], stream=1), base_page()])
+    obs = run_real(probe)
+    first = obs['starts'][0][0][:3] if obs['starts'] else '???'
+    if first not in ('200', '500'):
+        raise common.HarnessError('close-before-iter probe answered %r' % first)
+    close_raises = first == '500'
+    return {'close_before_iter_raises': close_raises, 'valid': _ranges(valid), 'falsy': falsy, 'he_ok': _ranges(he_ok), 'he_exc': _ranges(he_exc),
             'he_fallback': sorted(he_fallback)[0], 'hr_ok': _ranges(hr_ok), 'hr_known': hr_known,
             'nobody': _ranges(nobody), 'hookpoints': list(_cprequest.hookpoints)}
 
@@ -214,10 +222,15 @@ def noBodyRanges : List (Nat × Nat) := %s
 /-- `cherrypy._cprequest.hookpoints` -/
 def hookpointCount : Nat := %d
 
+/-- `AppResponse.close()` run from the `except` block of `__init__` (before `self.iter_response` is
+    assigned) raises `AttributeError` when `response.stream` is true — observed by sending a request to a
+    streaming page that raises `InternalRedirect` (500 instead of the redirect target's answer) -/
+def closeBeforeIterRaises : Bool := %s
+
 end CpModel.Gen.Pipeline
 """ % (TABLE_LIMIT - 1, _lean_ranges(t['valid']), t['falsy'], _lean_ranges(t['he_ok']), _lean_ranges(t['he_exc']),
        t['he_fallback'], _lean_ranges(t['hr_ok']), '[' + ', '.join(map(str, t['hr_known'])) + ']',
-       _lean_ranges(t['nobody']), len(t['hookpoints']))
+       _lean_ranges(t['nobody']), len(t['hookpoints']), 'true' if t['close_before_iter_raises'] else 'false')
     return {'CpModel/Gen/PipelineTables.lean': src}
 
 
